@@ -955,6 +955,8 @@ func conj(a ...MalType) (MalType, error) {
 
 func seq(seq MalType) (MalType, error) {
 	switch arg := seq.(type) {
+	case nil:
+		return nil, nil
 	case List:
 		if len(arg.Val) == 0 {
 			return nil, nil
